@@ -22,13 +22,13 @@ Theorem C29_timestamps_strictly_increase :
 Proof.
   intros c now nts inv known0 es s' os s Hrun.
   destruct (init_state_inv29 c now nts inv known0) as (HI & Hs & Hlt & Heq).
-  destruct (run_29 c es _ s s' os Hs HI Hrun) as (H1 & H2).
+  destruct (run_29 es c _ s s' os Hs HI Hrun) as (H1 & H2).
   exact (conj Hlt (conj Heq (conj H1 H2))).
 Qed.
 
 (* the same from any state satisfying the invariant, with H the timestamps used so far *)
 Theorem C29_from_any_state :
-  forall c es H s s' os, sorted (sessions s) -> Inv29 c H s -> run c s es = Some (s', os) ->
+  forall es c H s s' os, sorted (sessions s) -> Inv29 c H s -> run c s es = Some (s', os) ->
   incr_from (last_ts s) (all_draws os) /\
   Forall (fun t => In t (H ++ all_draws os)) (flat_map (own_ts c) os).
 Proof. exact run_29. Qed.
